@@ -59,8 +59,8 @@ def run(tier, seed):
     def replayer(ob):
         if ob.id.startswith('pgf:'):
             return pgf.native_replay(ob)
-        if ob.id.startswith('bounded:') and ob.witness:
-            return dict(failure_exhibited=True, how='native run', input=ob.witness)
+        if (ob.id.startswith('bounded:') or ob.id.startswith('native:')) and ob.witness:
+            return dict(failure_exhibited=True, how='native run of the real code against an independent oracle', input=ob.witness)
         from ..replay import aux_native
         return aux_native.replayer(ob)
     return rep, replayer
